@@ -1568,11 +1568,12 @@ add_408_block(coap_pdu_t *pdu, int block) {
     val[1] = block >> 8;
     val[2] = block & 0xff;
   } else { /* Largest block number is 2^^20 - 1 */
-    len = 4;
+    len = 5;
     val[0] = 26;
-    val[1] = block >> 16;
-    val[2] = (block >> 8) & 0xff;
-    val[3] = block & 0xff;
+    val[1] = 0;
+    val[2] = block >> 16;
+    val[3] = (block >> 8) & 0xff;
+    val[4] = block & 0xff;
   }
   if (coap_pdu_check_resize(pdu, pdu->used_size + len)) {
     memcpy(&pdu->token[pdu->used_size], val, len);
